@@ -71,10 +71,13 @@ fn stat(path: &str, ps: u64) -> Result<Sample, String> {
         buf.resize(need, 0);
     }
     let rep = fsck::check(&buf, len, ps)?;
-    if let Some(e) = rep.errors.first() {
-        return Err(format!("file unsound: {}", e));
+    // Live data = pages actually reachable (headers, tree with overflow runs, free-list page).
+    // Structural complaints (pages neither reachable nor free, ...) are C05's business and do
+    // not stop this check: a leak is exactly the case where the mark outgrows the live data.
+    if rep.shape.hwm == 0 {
+        return Err(format!("file unsound: {:?}", rep.errors.first()));
     }
-    Ok(Sample { hwm: rep.shape.hwm, live: rep.shape.live_pages, file_len: len })
+    Ok(Sample { hwm: rep.shape.hwm, live: rep.shape.reachable_pages, file_len: len })
 }
 
 fn open(path: &str, ps: u64, np: usize) -> Result<DB, String> {
